@@ -70,6 +70,11 @@ def table_from_initialiser(b):
         for x in walk(e):
             if isinstance(x, tuple) and x[0] == 'const' and isinstance(x[1], tuple) and x[1][0] == 'bytes':
                 lit = bytes(x[1][1])
+            elif isinstance(x, tuple) and x[0] == 'const' and len(x) > 3 and x[3] and lit is None:
+                # a named constant holding the literal: its evaluated value
+                c = b.facts.consts.get(x[3])
+                if c is not None and c.get('bytes') is not None and c.get('esize', 1) == 1:
+                    lit = bytes(c['bytes'])
         lits.append(lit)
     if None in lits or len(lits) != 2:
         return None, '', ['pair literals not found']
@@ -110,76 +115,34 @@ def table_from_initialiser(b):
     if not prefill:
         problems.append('identity pre-fill `*a = v as u8` over iter_mut().enumerate() not found')
 
-    def const_add(l):
-        """(component, k) if local l = component(+const k)"""
-        sd = b.single_def(l)
-        if sd is None or sd[0] != 'stmt':
-            return None
-        r = sd[3]['r']
-        if r['k'] == 'bin' and r['op'] in ('Add', 'AddUnchecked'):
-            x = r['a'].get('c') or r['a'].get('m')
-            k = r['b'].get('k', {}).get('v')
-            if x is not None and 'pj' not in x and isinstance(k, int):
-                c = zip_component(b, x['l'], zip_next)
-                if c is not None:
-                    return (c, k)
-                inner = const_add(x['l'])
-                if inner:
-                    return (inner[0], inner[1] + k)
-            return None
-        if r['k'] in ('use', 'cast'):
-            q = r['o'].get('c') or r['o'].get('m')
-            if q is None:
-                return None
-            if 'pj' in q and len(q['pj']) == 1 and q['pj'][0].get('f') == 0:
-                # (_ovf.0): look at the overflow tuple
-                sd2 = b.single_def(q['l'])
-                if sd2 and sd2[0] == 'stmt' and sd2[3]['r']['k'] == 'bin' and sd2[3]['r']['op'].startswith('Add'):
-                    rr = sd2[3]['r']
-                    x = rr['a'].get('c') or rr['a'].get('m')
-                    k = rr['b'].get('k', {}).get('v')
-                    if x is not None and 'pj' not in x and isinstance(k, int):
-                        c = zip_component(b, x['l'], zip_next)
-                        if c is None:
-                            inner = const_add(x['l'])
-                            if inner:
-                                return (inner[0], inner[1] + k)
-                        else:
-                            return (c, k)
-                return None
-            if 'pj' in q:
-                c = zip_component(b, l, zip_next)
-                return (c, 0) if c is not None else None
-            c = zip_component(b, l, zip_next)
-            if c is not None:
-                return (c, 0)
-            return const_add(q['l'])
+    from .poly import poly
+
+    def comp_atom(x):
+        """name Z0 / Z1 for (a copy of) the first / second element of the pair yielded by the zip iterator"""
+        x = strip(x)
+        if x[0] == 'field' and str(x[2]) in ('0', '1') and isinstance(x[1], tuple) and x[1][0] == 'field' and \
+                str(x[1][2]) == '0' and isinstance(x[1][1], tuple) and x[1][1][0] == 'downcast' and x[1][1][2] == 'Some':
+            src = x[1][1][1]
+            if src == ('local', zip_next, b.local_name(zip_next) or '_%d' % zip_next) or \
+                    (src[0] == 'local' and src[1] == zip_next) or \
+                    (src[0] == 'call' and src[1].endswith('Iterator>::next') and 'Zip' in (src[1] + str(src[3]))):
+                return 'Z' + str(x[2])
+        return None
+
+    def affine(e):
+        """(component, k) if e == component + k as a polynomial over integer casts"""
+        pe = poly(e, comp_atom)
+        k = pe.get((), 0)
+        rest = {m: v for m, v in pe.items() if m != ()}
+        if len(rest) == 1:
+            (m, v), = rest.items()
+            if v == 1 and m in (('Z0',), ('Z1',)):
+                return (int(m[0][1]), k)
         return None
     shaped = []
     for idx, s in stores:
-        ia = const_add(idx)
-        src = s['r'].get('o', {}).get('c') or s['r'].get('o', {}).get('m')
-        va = None
-        if s['r']['k'] == 'bin' and s['r']['op'] in ('Add', 'AddUnchecked'):
-            x = s['r']['a'].get('c') or s['r']['a'].get('m')
-            k = s['r']['b'].get('k', {}).get('v')
-            if x is not None and 'pj' not in x and isinstance(k, int):
-                c = zip_component(b, x['l'], zip_next)
-                if c is not None:
-                    va = (c, k)
-        if src is not None:
-            if 'pj' in src and len(src['pj']) == 1 and src['pj'][0].get('f') == 0:
-                sd2 = b.single_def(src['l'])
-                if sd2 and sd2[0] == 'stmt' and sd2[3]['r']['k'] == 'bin' and sd2[3]['r']['op'].startswith('Add'):
-                    rr = sd2[3]['r']
-                    x = rr['a'].get('c') or rr['a'].get('m')
-                    k = rr['b'].get('k', {}).get('v')
-                    if x is not None and isinstance(k, int):
-                        c = zip_component(b, x['l'], zip_next)
-                        if c is not None:
-                            va = (c, k)
-            elif 'pj' not in src:
-                va = const_add(src['l'])
+        ia = affine(b.expr_operand({'c': {'l': idx}}, inline_user=True))
+        va = affine(b.expr_rvalue(s['r'], inline_user=True))
         if ia is None or va is None:
             problems.append('store shape not recognised: %s' % s.get('d'))
         else:
@@ -297,20 +260,26 @@ def tb8(facts, rep):
         return
     rep.analysed_body(root)
     got = None
-    for c in facts.closures_of(root.path):
+    many = 0
+    # the match on the symbol byte: in the fold closure, or (loop form) in gcn_content itself
+    for c in [root] + list(facts.closures_of(root.path)):
         rep.analysed_body(c)
         for bb in c.reachable(0):
             t = c.term(bb)
             if t['k'] == 'switch' and t.get('dty') == 'u8':
                 vals = sorted(v for v, _ in t['vals'])
-                got = (vals, c, bb)
+                same_arm = len({tgt for _v, tgt in t['vals']}) == 1 and t['vals'][0][1] != t['else']
+                got = (vals if same_arm else vals + [-1], c, bb)
+                many += 1
     key = 'seq_analysis::gc::gcn_content|counted-bytes'
     if got is None:
         rep.missing(rule, key, 'no match on the symbol byte found')
+    elif many != 1:
+        rep.bad(rule, key, got[1].loc(got[2]), '%d matches on a symbol byte (expected one deciding what is counted)' % many)
     elif got[0] == sorted(b'CGcg'):
         rep.ok(rule, key, got[1].loc(got[2]), 'counts %s' % bytes(got[0]))
     else:
-        rep.bad(rule, key, got[1].loc(got[2]), 'GC content counts %s instead of C, G, c, g' % bytes(got[0]))
+        rep.bad(rule, key, got[1].loc(got[2]), 'GC content counts %s instead of C, G, c, g' % bytes(v for v in got[0] if v >= 0))
     for nm, step in (('gc_content', 1), ('gc3_content', 3)):
         b = facts.body('seq_analysis::gc::' + nm)
         key = 'seq_analysis::gc::%s|step' % nm
